@@ -155,27 +155,124 @@ func runC03(r *Run, verifDir string) {
 	} else {
 		r.Unk("C03.T1", "typesName", token.NoPos, "anchor missing")
 	}
-	// reader accepts exactly 1..10: validate has `ty > TypeInterval || ty == 0` -> error
+	// reader accepts exactly 1..10: for each of the 256 values of the type byte, follow validate() from the point
+	// where the type is read, deciding the branches that compare the type with a constant and taking both sides of
+	// every other branch: a code outside 1..10 must reach an error return on every such path, a code inside must
+	// be able to reach the nil return
 	if vf := p.Func("ttlv", "ttlvReader", "validate"); vf != nil {
-		hi, lo := false, false
+		badOut, badIn, undec := int64(-1), int64(-1), ""
+		var start *ssa.BasicBlock
 		allInstrs(vf, func(in ssa.Instruction) {
-			bo, ok := in.(*ssa.BinOp)
-			if !ok || !isTypeValue(bo.X) {
-				return
-			}
-			if k, ok := constIntVal(bo.Y); ok {
-				if bo.Op == token.GTR && k == 10 {
-					hi = true
-				}
-				if bo.Op == token.EQL && k == 0 {
-					lo = true
+			if v, ok := in.(ssa.Value); ok && isTypeValue(v) && start == nil {
+				if _, isBin := in.(*ssa.BinOp); !isBin {
+					start = in.Block()
 				}
 			}
 		})
-		if hi && lo {
-			r.OK("C03.T1", "ttlv.ttlvReader.validate/range", vf.Pos(), "type codes outside 1..10 are rejected")
-		} else {
-			r.Bad("C03.T1", "ttlv.ttlvReader.validate/range", vf.Pos(), "the reader does not reject type codes outside 1..10 (>10 test=%v, ==0 test=%v)", hi, lo)
+		if start == nil {
+			undec = "the type of the item is not read in validate()"
+		}
+		decide := func(cond ssa.Value, ty int64) (bool, bool) {
+			bo, ok := cond.(*ssa.BinOp)
+			if !ok {
+				return false, false
+			}
+			x, y, op := bo.X, bo.Y, bo.Op
+			if _, isK := constIntVal(x); isK && isTypeValue(y) {
+				x, y = y, x
+				switch op {
+				case token.LSS:
+					op = token.GTR
+				case token.LEQ:
+					op = token.GEQ
+				case token.GTR:
+					op = token.LSS
+				case token.GEQ:
+					op = token.LEQ
+				}
+			}
+			k, isK := constIntVal(y)
+			if !isK || !isTypeValue(x) {
+				return false, false
+			}
+			if _, isConv := x.(*ssa.Convert); isConv {
+				return false, false
+			}
+			switch op {
+			case token.LSS:
+				return ty < k, true
+			case token.LEQ:
+				return ty <= k, true
+			case token.GTR:
+				return ty > k, true
+			case token.GEQ:
+				return ty >= k, true
+			case token.EQL:
+				return ty == k, true
+			case token.NEQ:
+				return ty != k, true
+			}
+			return false, false
+		}
+		for ty := int64(0); ty < 256 && start != nil; ty++ {
+			canNil, canErrOnly := false, true
+			on := map[*ssa.BasicBlock]bool{}
+			var walk func(b, from *ssa.BasicBlock)
+			walk = func(b, from *ssa.BasicBlock) {
+				if on[b] {
+					return
+				}
+				on[b] = true
+				defer func() { on[b] = false }()
+				last := b.Instrs[len(b.Instrs)-1]
+				switch x := last.(type) {
+				case *ssa.Return:
+					v := x.Results[0]
+					if ph, ok := v.(*ssa.Phi); ok && ph.Block() == b && from != nil {
+						if pi := predIndex(b, from); pi >= 0 {
+							v = ph.Edges[pi]
+						}
+					}
+					if isNilConst(v) {
+						canNil, canErrOnly = true, false
+					} else if _, isPhi := v.(*ssa.Phi); isPhi {
+						canNil, canErrOnly = true, false // not resolved: assume it may be nil
+					}
+				case *ssa.If:
+					if val, ok := decide(x.Cond, ty); ok {
+						if val {
+							walk(b.Succs[0], b)
+						} else {
+							walk(b.Succs[1], b)
+						}
+						return
+					}
+					walk(b.Succs[0], b)
+					walk(b.Succs[1], b)
+				default:
+					for _, sc := range b.Succs {
+						walk(sc, b)
+					}
+				}
+			}
+			walk(start, nil)
+			if ty >= 1 && ty <= 10 {
+				if !canNil && badIn < 0 {
+					badIn = ty
+				}
+			} else if !canErrOnly && badOut < 0 {
+				badOut = ty
+			}
+		}
+		switch {
+		case undec != "":
+			r.Unk("C03.T1", "ttlv.ttlvReader.validate/range", vf.Pos(), "%s", undec)
+		case badOut >= 0:
+			r.Bad("C03.T1", "ttlv.ttlvReader.validate/range", vf.Pos(), "the reader does not reject type code %d: validate() can return nil for it (only 1..10 are KMIP item types)", badOut)
+		case badIn >= 0:
+			r.Bad("C03.T1", "ttlv.ttlvReader.validate/range", vf.Pos(), "the reader rejects type code %d (%s), a KMIP item type the writer emits", badIn, ttlvTypeNames[badIn])
+		default:
+			r.OK("C03.T1", "ttlv.ttlvReader.validate/range", vf.Pos(), "type codes outside 1..10 reach an error return on every path, each of 1..10 can reach the nil return (256 values followed through validate())")
 		}
 	} else {
 		r.Unk("C03.T1", "ttlv.ttlvReader.validate/range", token.NoPos, "anchor missing")
